@@ -16,7 +16,7 @@ from .sched import Policy, Scheduler, Stall
 
 
 class _Skipped:
-    pass
+    _vecsim_skipped = True
 
 
 SKIPPED = _Skipped()
@@ -71,7 +71,7 @@ def apply_config(cfg, vector):
         warnings.simplefilter(wf)
     po = cfg.get("printopts")
     if po:
-        numpy.set_printoptions(**po)
+        numpy.set_printoptions(**po)  # main thread's context (pool construction)
     if cfg.get("awk_mode") == "registered_before":
         vector.register_awkward()
     if cfg.get("simlib"):
@@ -107,6 +107,8 @@ def run_pass(world, pspec, vector):
 
     pool: list = []
     pool_snaps: list = []
+    want_cells = bool(pspec.get("cells"))
+    cells: set = set()
 
     def check_global(site, precise):
         nonlocal gexp
@@ -149,11 +151,13 @@ def run_pass(world, pspec, vector):
             viol.append(_viol("C20", "I1", "register:not-idempotent", site, pname, "second call changed awkward.behavior"))
         gexp = now
 
-    def check_pool(site, only=None):
+    def check_pool(site, only=None, cheap_only=False):
         stats["i2_checks"] += 1
         idx = range(len(pool_snaps)) if only is None else only
         for j in idx:
             if j >= len(pool_snaps) or pool_snaps[j] is None:
+                continue
+            if cheap_only and pool_snaps[j][0] in ("ak", "akrec") and j not in cheap_only:
                 continue
             try:
                 now = snapshot.snap(pool[j])
@@ -195,7 +199,7 @@ def run_pass(world, pspec, vector):
         pool.append(val)
         outcomes[f"P:{j}"] = _outcome(val)
         if snapshot.thread_state() != tstate0:
-            viol.append(_viol("C20", "I1", "thread:errstate", site, pname, f"{tstate0} -> {snapshot.thread_state()}"))
+            viol.append(_viol("C20", "I1", _tdiff(tstate0, snapshot.thread_state()), site, pname, f"{tstate0} -> {snapshot.thread_state()}"))
             tstate0 = snapshot.thread_state()
         if op.get("reg") == "awkward":
             allowed_register(site, before_g)
@@ -238,6 +242,8 @@ def run_pass(world, pspec, vector):
         es = cfg.get("errstate") or []
         if k < len(es) and es[k]:
             numpy.seterr(**es[k])
+        if cfg.get("printopts"):
+            numpy.set_printoptions(**cfg["printopts"])  # context-local in numpy >= 2
         tstates[k] = snapshot.thread_state()
         env = Env(pool, results[k], privs[k])
         prog = progs[k]
@@ -279,6 +285,8 @@ def run_pass(world, pspec, vector):
             results[k][i] = val
             oc = _outcome(val)
             outcomes[f"T:{k}:{i}"] = oc
+            if want_cells:
+                cells.add(_cell(op, env, val))
             res_dig[k][i] = oc[0]
             # rebinding / private definition
             written = ops.written_refs(op)
@@ -291,7 +299,7 @@ def run_pass(world, pspec, vector):
             # I1 thread-local
             ts = snapshot.thread_state()
             if ts != tstates[k]:
-                viol.append(_viol("C20", "I1", "thread:errstate", site, pname, f"{tstates[k]} -> {ts}"))
+                viol.append(_viol("C20", "I1", _tdiff(tstates[k], ts), site, pname, f"{tstates[k]} -> {ts}"))
                 tstates[k] = ts
             # I1 global: precise only when no other op can be in flight
             if op.get("reg") == "awkward":
@@ -299,10 +307,12 @@ def run_pass(world, pspec, vector):
             elif serial_like:
                 check_global(site, True)
             # I2: pool operands (all in serial-like passes, the op's own operands otherwise)
+            mine = [v for t, v in ops.op_refs(op) if t == "p"]
             if serial_like:
-                check_pool(site)
+                # everything cheap after every op; Awkward slots when they are operands, every 8th op and at the end
+                check_pool(site, cheap_only=() if i % 8 == 7 else (set(mine) or {-1}))
             else:
-                check_pool(site, only=[v for t, v in ops.op_refs(op) if t == "p"])
+                check_pool(site, only=mine)
             # privates: those not written must be unchanged; written ones are re-snapped
             wm = {v for t, v in written if t == "m"}
             if "bind" in op:
@@ -366,11 +376,46 @@ def run_pass(world, pspec, vector):
         "lib_calls": faults.counters.lib_calls,
         "flt_calls": faults.counters.flt_calls,
     }
+    if want_cells:
+        out["cells"] = sorted(cells)
     if pspec.get("want_list"):
         out["sched"]["list"] = sched.switch_list()
     if pspec.get("want_diag"):
         out["diag"] = {k_: v_ for k_, v_ in snapshot.vector_owned_state().items()}
     return out
+
+
+def _kind_of(x):
+    """Backend class + stored coordinate system of an operand (for the reach table)."""
+    n = type(x).__name__
+    for g in ("azimuthal", "longitudinal", "temporal"):
+        try:
+            c = getattr(x, g)
+        except Exception:
+            break
+        cn = type(c).__name__
+        for suf in ("RhoPhi", "XY", "Theta", "Eta", "Tau", "Z", "T"):
+            if cn.endswith(suf):
+                n += "." + suf
+                break
+    return n
+
+
+def _cell(op, env, val):
+    parts = [op["f"]]
+    for a in op.get("a", ()):
+        if isinstance(a, dict) and a.get("$") in ("p", "m", "r"):
+            try:
+                parts.append(_kind_of(ops.decode(a, env)))
+            except Exception:
+                parts.append("?")
+    parts.append("exc:" + type(val.exc).__name__ if isinstance(val, _Raised) else "ok:" + type(val).__name__)
+    return "|".join(parts)
+
+
+def _tdiff(a, b):
+    names = ("errstate", "errcall", "bufsize", "printoptions")
+    return "thread:" + ",".join(n for n, x, y in zip(names, a, b) if x != y)
 
 
 def _outcome(val):
